@@ -2,3 +2,9 @@ import TephraProps.C06
 #print axioms Tephra.Props.C06_either_restarts
 #print axioms Tephra.Props.C06_maybe_restores
 #print axioms Tephra.Props.C06_filter_with_restores
+#print axioms Tephra.Props.C06_next_is_pop
+#print axioms Tephra.Props.C06_peek_shows_pop
+#print axioms Tephra.Props.C06_partial
+#print axioms Tephra.Props.C06_fuel_accounting
+#print axioms Tephra.Props.C06_abs_view
+#print axioms Tephra.Props.C06_finding_F27
